@@ -1,5 +1,6 @@
 import Driver.Proto
 import BemppVerif.Model.Color
+import BemppVerif.Model.Sched
 
 /-! Driver commands for the colouring model.
 
@@ -7,6 +8,9 @@ import BemppVerif.Model.Color
   -> `ok cm <n ints> sorted <k> <k nats> ptr <m> <m nats> launches <L> (<len> <elements>)* owned <0|1>`
      (`cm` = `color_map`, `sorted`/`ptr` = `get_elements_by_color()`, `launches` = the `test_elements` of the
      successive kernel calls, `owned` = premise `artificial_dof_owned`) or `err stop-iteration`.
+`densetask nt ns k trow(nt) trialrows(k*ns)`
+  -> `ok <steps> (<0=load|1=store> <row> <col>)*` = the loads/stores of the scatter loop of one test element.
+`slots singular|sparse n nt ns` -> `ok <slots in loop order>`.
 `g2l n ns s.. l2g.. mult..`
   -> `ok <gdc> (<len> (<elem> <local>)*)*`  = `invert_local2global(local2global, local_multipliers)`.
 -/
@@ -59,6 +63,24 @@ def handle (toks : List String) : String :=
         let g := g2l S d
         if g.isEmpty then "0" else s!"{g.length} " ++ showNats (g.flatMap fun p => [p.1, p.2])
       s!"ok {gdc} " ++ " ".intercalate rows
+  | "densetask" :: nt :: ns :: k :: rest =>
+    match nt.toNat?, ns.toNat?, k.toNat?, parseNats rest with
+    | some nt, some ns, some k, some l =>
+      if l.length ≠ nt + k * ns then "err bad-op" else
+      let task : BemppVerif.Model.Sched.Task (Nat × Nat) Unit :=
+        BemppVerif.Model.Sched.denseTask (fun _ _ => ()) (l.take nt) (chunk ns k (l.drop nt)) (fun _ _ _ => ())
+      let tr := BemppVerif.Model.Sched.trace task
+      s!"ok {tr.length} " ++ showNats (tr.flatMap fun (w, c) => [if w then 1 else 0, c.1, c.2])
+    | _, _, _, _ => "err bad-op"
+  | ["slots", kind, n, nt, ns] =>
+    match n.toNat?, nt.toNat?, ns.toNat? with
+    | some n, some nt, some ns =>
+      if kind == "singular" then
+        "ok " ++ showNats (BemppVerif.Model.Sched.slotOrder (BemppVerif.Model.Sched.singularSlot nt ns) n nt ns)
+      else if kind == "sparse" then
+        "ok " ++ showNats (BemppVerif.Model.Sched.slotOrder (BemppVerif.Model.Sched.sparseSlot nt ns) n nt ns)
+      else "err bad-op"
+    | _, _, _ => "err bad-op"
   | _ => "err bad-op"
 
 end Driver.Color
